@@ -298,7 +298,8 @@ def rfc6979_rules(prog, chk, pid):
     P = lambda s: "%s.%s" % (pid, s)
     fi = prog.func(E + "rfc6979.generate_k")
     where = "%s:%d" % (fi.file, fi.lineno)
-    ex = Exec(prog, policy=lambda e, f, d: f.name == "hmac_compat")
+    # hmac_compat and any private helper of the module (an extracted "update key" step, say) are interpreted as part of generate_k; the bit-string conversions are units
+    ex = Exec(prog, policy=lambda e, f, d: f.name == "hmac_compat" or (f.module is fi.module and f.name not in ("bits2int", "bits2octets", "bit_length", "generate_k") and d < 3))
     res = ex.run(fi)
     p_order, p_sec, p_hash, p_data = [mk("param", x) for x in fi.params[:4]]
     p_extra = mk("param", fi.params[5])
